@@ -1772,21 +1772,28 @@ class Transaction(object):
                 break
 
             # Add already known signatures on correct position
-            n_sigs_to_insert = len(self.inputs[tid].signatures)
+            n_sigs_to_insert = 0
             for sig in self.inputs[tid].signatures:
-                if not sig.public_key:
-                    break
-                newsig_pos = pub_key_list.index(sig.public_key.public_byte)
-                if sig_domain[newsig_pos] == '':
-                    sig_domain[newsig_pos] = sig
-                    n_sigs_to_insert -= 1
-            if n_sigs_to_insert:
-                for sig in self.inputs[tid].signatures:
-                    free_positions = [i for i, s in enumerate(sig_domain) if s == '']
-                    for pos in free_positions:
-                        sig_domain[pos] = sig
-                        n_sigs_to_insert -= 1
-                        break
+                sig_pub_key = sig.public_key
+                if not sig_pub_key:
+                    # Signer unknown (for instance after parsing a raw transaction): find the key this signature is for
+                    for k in self.inputs[tid].keys:
+                        if verify(txid, sig, k):
+                            sig_pub_key = k
+                            break
+                if sig_pub_key and sig_pub_key.public_byte in pub_key_list:
+                    newsig_pos = pub_key_list.index(sig_pub_key.public_byte)
+                    if sig_domain[newsig_pos] == '':
+                        sig_domain[newsig_pos] = sig
+                    elif sig_domain[newsig_pos] is not sig:
+                        # Position taken by the new signature of the same key: existing signature is replaced
+                        n_sigs_to_insert += 1
+                    continue
+                free_positions = [i for i, s in enumerate(sig_domain) if s == '']
+                if free_positions:
+                    sig_domain[free_positions[0]] = sig
+                else:
+                    n_sigs_to_insert += 1
             if n_sigs_to_insert:
                 _logger.info("Some signatures are replaced with the signatures of the provided keys")
             self.inputs[tid].signatures = [s for s in sig_domain if s != '']
